@@ -180,6 +180,14 @@ func txMode(r *sim.Rng, nStates, perState int, cw *sim.CaseWriter, outDir string
 				slashCase(r, n, gen)
 				continue
 			}
+			if wReward != nil && r.Chance(12) {
+				rewardCase(r, n)
+				continue
+			}
+			if wMint != nil && r.Chance(6) {
+				mintCase(r, n)
+				continue
+			}
 			tx, _ := gen.Next(n.FSM)
 			msg, sender, fee, cerr := n.FSM.VerifCheckTx(tx)
 			if cerr != nil {
@@ -356,6 +364,9 @@ func main() {
 		fmt.Printf("authorization: %d cases; variants %v outcomes %v skipped %v\n", st.Cases, st.TxCases, st.TxOutcome, st.Skipped)
 		return
 	}
+	impB := "From V Require Import U64 Extracted Ledger LedgerCheck LedgerBlock LedgerBlockCheck."
+	wReward = &sim.CaseWriter{OutDir: *outDir, Name: "c04reward", Imports: impB, CaseType: "rw_case", MFun: "rw_mismatches", VFun: fmt.Sprintf("rw_violations_for %d", *prop), PerShard: 25}
+	wMint = &sim.CaseWriter{OutDir: *outDir, Name: "c04mint", Imports: impB, CaseType: "mint_case", MFun: "mint_mismatches", VFun: fmt.Sprintf("mint_violations_for %d", *prop), PerShard: 25}
 	wSlash = &sim.CaseWriter{OutDir: *outDir, Name: "c04slash", Imports: imp, CaseType: "sl_case", MFun: "sl_mismatches", VFun: fmt.Sprintf("sl_violations_for %d", *prop), PerShard: 25}
 	txMode(r.Fork(), *nStates, *perState, w1, *outDir)
 	if *prop == 0 || *prop == 7 {
@@ -363,6 +374,8 @@ func main() {
 	}
 	w1.Close(st)
 	wSlash.Close(st)
+	wReward.Close(st)
+	wMint.Close(st)
 	wFail.Close(st)
 	w2 := &sim.CaseWriter{OutDir: *outDir, Name: "c04chain", Imports: imp, CaseType: "scan_case", MFun: "scan_mismatches", VFun: fmt.Sprintf("scan_violations_for %d", *prop), PerShard: 40}
 	chainMode(r.Fork(), *nChains, *nBlocks, w2, *outDir)
